@@ -30,7 +30,7 @@ CHECKS = {
          'finite/acyclic, in-source ranges, root extent, prev/next consistency, sibling order, mate symmetry, type range on N trees from corpus, generated and hostile inputs, pool and no-pool; 14 numeric enum relations',
          'tail shortcut pointers are reported, not judged; root extent not judged for parse_substring'),
  'C07': ('resource monitors per child process: signal watch under an 8 MiB stack, stack high-water and executed-basic-block counter from a trace-pc callback',
-         '32 nesting constructs x {closed, unclosed} x opener runs up to 10^5 (quick) / 10^6 (thorough) bytes x writers: no signal on the shipped-flags and no-pool ASan builds, stack high-water plateaus; cost(d^k) <= 4 x growth of input+output for corpus/generated seeds and 12 pathological patterns, measured in basic blocks',
+         '32 nesting constructs x {closed, unclosed} x opener runs up to 10^5 (quick) / 10^6 (thorough) bytes x writers: no signal on the shipped-flags and no-pool ASan builds, stack high-water plateaus; cost(d^k) <= 4 x growth of input+output for corpus/generated seeds and 17 pathological patterns (published ones plus mixtures of a matched pair with an unmatched opener), measured in basic blocks',
          'cost of deep *balanced* nesting is not promised by the property and is not judged (runs are cut short by a time budget and counted); decided up to the sizes run'),
  'C13': ('reference expander (Python model of the documented transclusion rules) + termination watchdog + size bound',
          'N generated include graphs on disk (chains, trees, DAGs with sharing, self-loops, cycles, missing targets, nested directories, transclude-base overrides, wildcards, metadata, CRLF) x {html, latex, fodt, mmd}: acyclic = byte equality of text and manifest with the model; cyclic = returns within the watchdog and stays within S(m+1)^(n+1); CLI agrees with the library',
